@@ -13,6 +13,38 @@ func (gs *groupScen) onPlan(mg *mgroup, rec *genRecord) {
 	r := gs.r
 	r.probe("plan-checked")
 	gen := rec.generation
+	// the leader's metadata may lag: a partition count is admissible if the topic had it at some time
+	// ... since the leader's current Consume call began (it refreshes its metadata right after that)
+	since := int64(0)
+	if lm := mg.members[rec.leader]; lm != nil {
+		for _, m := range gs.members {
+			if m.cfg != nil && m.cfg.ClientID == lm.clientID {
+				m.mu.Lock()
+				since = m.consumeInvokeUs
+				m.mu.Unlock()
+			}
+		}
+	}
+	leaderSubs := map[string]bool{}
+	for _, t := range rec.subs[rec.leader] {
+		leaderSubs[t] = true
+	}
+	admissible := func(t string) []int {
+		var out []int
+		cs, at := gs.countsEver[t], gs.countsAt[t]
+		for i, n := range cs {
+			end := int64(1) << 62
+			if i+1 < len(at) {
+				end = at[i+1]
+			}
+			// topics the leader does not subscribe to itself are refreshed only by its background refresher:
+			// its cached count may date from any time
+			if end >= since || !leaderSubs[t] {
+				out = append(out, n)
+			}
+		}
+		return out
+	}
 	isMember := map[string]bool{}
 	for _, m := range rec.members {
 		isMember[m] = true
@@ -48,8 +80,13 @@ func (gs *groupScen) onPlan(mg *mgroup, rec *genRecord) {
 				if !subscribes(m, t) {
 					r.violate("C08.not-subscribed", "generation %d (%s): %s assigned to %s which does not subscribe to %s (subscriptions %v)", gen, gs.strategy, key, m, t, rec.subs[m])
 				}
-				n, known := rec.partCounts[t]
-				if !known || int(p) >= n || p < 0 {
+				n := 0
+				for _, x := range admissible(t) {
+					if x > n {
+						n = x
+					}
+				}
+				if int(p) >= n || p < 0 {
 					r.violate("C08.unknown-partition", "generation %d (%s): %s assigned to %s but topic %s has %d partitions", gen, gs.strategy, key, m, t, n)
 				}
 				if prev, dup := owner[key]; dup {
@@ -77,7 +114,7 @@ func (gs *groupScen) onPlan(mg *mgroup, rec *genRecord) {
 	}
 	sort.Strings(sts)
 	for _, t := range sts {
-		counts := gs.countsEver[t]
+		counts := admissible(t)
 		if len(counts) == 0 {
 			continue // topic does not exist
 		}
